@@ -105,7 +105,7 @@ theorem driver_computes_ideal (cfg : Cfg) (hv : cfg.Valid) (a : Nat) : idealExec
 /-- What the correspondence check accepts as the implementation's value for an un-jittered kind
 ("every allowed choice"): at most the cap, and within `2^-40` relative + 1 ns of `ideal`. -/
 theorem allowed_choice_sound (cfg : Cfg) (hv : cfg.Valid) (a v : Nat) (h : allowedExp cfg a v = true) :
-    v ≤ cfg.capNs ∧ v ≤ ideal cfg a + tol (ideal cfg a) ∧ ideal cfg a ≤ v + tol (ideal cfg a) :=
+    v ≤ cfg.capNs ∧ v ≤ ideal cfg a + tolE (ideal cfg a) (effExp cfg a) ∧ ideal cfg a ≤ v + tolE (ideal cfg a) (effExp cfg a) :=
   allowed_choice_sound_aux cfg hv a v h
 
 /-- (B) **Total over any arithmetic**: the repaired `capped_exponential` returns a duration — it
@@ -248,6 +248,41 @@ theorem float_exact_in_exact_region (fl : FloatLike) (O : FloatOps fl) (L : F64L
   rw [raw_pow2 cfg j hd hj a]
   rfl
 
+/-- the tolerance of the envelope depends on the EFFECTIVE exponent — the number of factors `m` that decide the answer: never
+more than the exponent the code uses … -/
+theorem effective_exponent_le (cfg : Cfg) (a : Nat) : effExp cfg a ≤ expo a := effExp_le cfg a
+
+/-- … and when it is smaller (the loop stopped early), the exact value is the cap: attempts beyond the first capped one
+get the tolerance of that attempt, not one that grows with the attempt number. -/
+theorem effective_exponent_stops_at_cap (cfg : Cfg) (hv : cfg.Valid) (a : Nat) (hm : cfg.num ≠ cfg.den) (hi : cfg.initial ≠ 0)
+    (h : effExp cfg a < expo a) : ideal cfg a = cfg.capNs := by
+  rw [← idealExec_eq cfg hv, ← idealExecP_fst]
+  unfold effExp at h
+  unfold idealExecP at h ⊢
+  rw [if_neg (by intro hh; rcases hh with hh | hh <;> contradiction)] at h ⊢
+  exact goP_stopped _ _ _ _ _ _ _ (by omega)
+
+/-- up to exponent 4092 the tolerance is the `2^-40 + 1 ns` the envelope always had; beyond it grows as `(2e + 8)·2^-53`
+(the `f64` multiplier is off by up to `2^-53`, and the power multiplies that by `e`). -/
+theorem tolerance_unchanged_up_to_4092 (x e : Nat) (h : e ≤ 4092) : tolE x e = tol x := tolE_eq_tol x e h
+
+/-- "never reaches the cap" contradicts `ideal`: growth by 5 % from 100 ms reaches a one-hour maximum at attempt 216 exactly
+(below it at 215), by 1 % at attempt 1055 (below it at 1054, and at 1024 — where the exponent of the seeded change C14-w6m2
+stops — it is 2661.26 s); it stays there for ever by `ideal_cap_reached_forever`. The checker's effective exponent at
+`usize::MAX` is the first capped attempt, and a value that stopped growing below the cap is rejected. -/
+example : ideal { initial := 100000000, num := 21, den := 20, cap := some 3600000000000 } 215 < 3600000000000
+    ∧ ideal { initial := 100000000, num := 21, den := 20, cap := some 3600000000000 } 216 = 3600000000000
+    ∧ ideal { initial := 100000000, num := 101, den := 100, cap := some 3600000000000 } 1024 = 2661256611730
+    ∧ ideal { initial := 100000000, num := 101, den := 100, cap := some 3600000000000 } 1054 < 3600000000000
+    ∧ ideal { initial := 100000000, num := 101, den := 100, cap := some 3600000000000 } 1055 = 3600000000000
+ := by
+  decide +kernel
+
+example : effExp { initial := 100000000, num := 21, den := 20, cap := some 3600000000000 } 18446744073709551615 = 216
+    ∧ allowedExp { initial := 100000000, num := 21, den := 20, cap := some 3600000000000 } 300 3600000000000 = true
+    ∧ allowedExp { initial := 100000000, num := 21, den := 20, cap := some 3600000000000 } 300 3599999990000 = false := by
+  decide +kernel
+
 /-- what the checker accepts inside the exact region is `ideal` itself … -/
 theorem exact_region_choice_sound (cfg : Cfg) (a v : Nat) (hx : exactRegion cfg = true) (h : allowedExp cfg a v = true) :
     v = ideal cfg a := by
@@ -343,8 +378,8 @@ theorem stored_factor_in_unit_interval (fn fd : Nat) :
 /-- What the correspondence check accepts as the implementation's value for a jittered kind: within the randomization
 factor `fn/fd` of `ideal` (± the float tolerance), and a `Duration` — the counterpart of `allowed_choice_sound`. -/
 theorem allowed_rand_sound (cfg : Cfg) (hv : cfg.Valid) (fn fd a v : Nat) (h : allowedRand cfg fn fd a v = true) :
-    jitterLoQ (ideal cfg a) fn fd ≤ v + tol (ideal cfg a) + 1 ∧
-    v ≤ jitterHiQ (ideal cfg a) fn fd + 2 * tol (ideal cfg a) + 1 ∧ v ≤ durMax :=
+    jitterLoQ (ideal cfg a) fn fd ≤ v + tolE (ideal cfg a) (effExp cfg a) + 1 ∧
+    v ≤ jitterHiQ (ideal cfg a) fn fd + 2 * tolE (ideal cfg a) (effExp cfg a) + 1 ∧ v ≤ durMax :=
   allowed_rand_sound_aux cfg hv fn fd a v h
 
 /-! ## "retry and reconnect loops can run indefinitely against a dead backend without crashing" -/
